@@ -404,3 +404,64 @@ def r18_4(ctx):
             if (fn_of(t) or {}).get("name") in ("disable_recursion_limit",):
                 bad.append(site(b, bb))
     ctx.ob("no-disable_recursion_limit", not bad, "lib", "no parser has its recursion limit disabled" if not bad else f"recursion limit disabled at {bad}")
+
+
+@rule("R18.5", 2, "the YAML chunker adds no verdict of its own: every error it yields carries an error polled from libyaml, so the reader path rejects exactly what the parsers reject (no second nesting or size limit in front of serde_yaml)", ["C18", "C10"])
+def r18_5(ctx):
+    from model import strace, strace_deep
+    import r_c03
+
+    lib = ctx.lib
+    ch = common.chunker(ctx.facts)
+    sup = ch["sup"]
+    polls = [(n, t) for n, b_, t in sup.calls() if r_c03._is_parser_poll(lib, b_, t)]
+    ctx.need(polls, "parser poll not found in the chunker")
+    poll_terms = [t for _, t in polls]
+
+    def from_poll(node, op, depth=0):
+        """The operand is the error of a parser poll, possibly wrapped by io::Error::new / a wrapping helper."""
+        if depth > 4:
+            return False
+        tr = strace_deep(sup, node, op, extra=("std::result::Result::<T, E>::map_err",), stop_at=poll_terms)
+        if not (tr.origin and tr.origin[0] == "call"):
+            # closure parameter of `poll().map_err(|e| ..)`
+            body = sup.body_of(node)
+            if body.raw["def_kind"] == "Closure" and tr.origin and tr.origin[0] == "arg":
+                for pn, pb, pt in sup.calls():
+                    pf = fn_of(pt) or {}
+                    if body.id in pf.get("closures", []) and pf.get("def") == "std::result::Result::<T, E>::map_err" and pt["args"]:
+                        rt = strace(sup, pn, pt["args"][0])
+                        if rt.origin and rt.origin[0] == "call" and any(rt.origin[2] is x for x in poll_terms):
+                            return True
+            return False
+        ct = tr.origin[2]
+        if any(ct is x for x in poll_terms):
+            return True
+        cf = fn_of(ct) or {}
+        onode = (tr.origin_node[0], tr.origin[1])
+        if cf.get("def", "").startswith("std::io::Error::new") and len(ct["args"]) == 2:
+            return from_poll(onode, ct["args"][1], depth + 1)
+        if cf.get("name") in ("into", "from") and ct["args"]:
+            return from_poll(onode, ct["args"][0], depth + 1)
+        return False
+
+    n = 0
+    seen = set()
+    for node in sorted(sup.nodes(), key=str):
+        body = sup.body_of(node)
+        if body.file != ch["loop"].file or (body.id, node[1]) in seen:
+            continue
+        seen.add((body.id, node[1]))
+        for s_ in body.blocks[node[1]]["stmts"]:
+            if s_["k"] == "assign" and s_["rv"]["k"] == "aggregate" and s_["rv"].get("variant") == "Err" and "std::io::Error" in s_["p"].get("ty", "") and s_["rv"]["ops"]:
+                n += 1
+                ok = from_poll(node, s_["rv"]["ops"][0])
+                ctx.ob(f"error-from-parser:{body.name}", ok, sup.site(node), "the error yielded is the parser poll's error (wrapped)" if ok else "the chunker yields an error of its own making: input the parsers accept is rejected on the reader path only")
+        # `poll().map_err(wrap)?`: the residual handed on is the poll's own result
+        t = body.blocks[node[1]]["term"]
+        if t["k"] == "call" and (fn_of(t) or {}).get("def") == "std::ops::FromResidual::from_residual" and t["args"] and "std::io::Error" in body.local_ty(t["dest"]["l"]):
+            n += 1
+            tr = strace(sup, node, t["args"][0], extra=("std::ops::Try::branch", "std::result::Result::<T, E>::map_err", "std::result::Result::<T, E>::or_else"))
+            ok = bool(tr.origin and tr.origin[0] == "call" and any(tr.origin[2] is x for x in poll_terms))
+            ctx.ob(f"error-from-parser:{body.name}:?", ok, sup.site(node), "`?` hands on the parser poll's own error" if ok else "`?` propagates an error that is not the parser poll's: the chunker rejects input on its own")
+    ctx.ob("chunker-error-sites", n >= 1, site(ch["loop"]), f"{n} Err(..) construction(s) in the chunker")
